@@ -18,12 +18,14 @@ func init() {
 			t01 = append(t01, H{Pkg: "scipipe", Fn: "VxH01wf", Params: p("shape", sh, "two", two, "N", 60), MustReach: []string{"ran-returned", "ran-killed", "ran-exit"}, MustAssert: []string{"C01.final-path-absent-or-complete", "C01.all-outputs-present-on-success"}})
 		}
 	}
+	q01 = append(q01, H{Pkg: "scipipe", Fn: "VxH01wf", Params: p("shape", 0, "two", 1, "side", 1, "N", 70), MustReach: []string{"ran-returned", "ran-killed", "ran-exit"}, MustAssert: []string{"C01.final-path-absent-or-complete", "C09.failed-output-not-finalized"}})
+	t01 = append(t01, H{Pkg: "scipipe", Fn: "VxH01wf", Params: p("shape", 1, "two", 1, "side", 1, "N", 70), MustReach: []string{"ran-returned", "ran-killed", "ran-exit"}, MustAssert: []string{"C01.final-path-absent-or-complete", "C09.failed-output-not-finalized"}})
 	q01 = append(q01, H{Pkg: "components", Fn: "VxH01conc", Params: p("preempt", 2), MustReach: []string{"ran-returned", "ran-exit"}, MustAssert: []string{"C01.conc.final-path-absent-or-complete", "C01.conc.output-of-its-own-task"}})
 	t01 = append(t01, H{Pkg: "components", Fn: "VxH01conc", Params: p("preempt", 3), MustReach: []string{"ran-returned", "ran-exit"}, MustAssert: []string{"C01.conc.final-path-absent-or-complete", "C01.conc.output-of-its-own-task"}})
 	q01 = append(q01, H{Pkg: "scipipe", Fn: "VxH01go", Params: p("N", 12), MustReach: []string{"ran-killed"}})
 	t01 = append(t01, H{Pkg: "scipipe", Fn: "VxH01go", Params: p("N", 12), MustReach: []string{"ran-killed"}})
 	b01 := map[string]string{
-		"workflow":      "real Workflow.Run of two command processes a -> b; a has 1 or 2 outputs",
+		"workflow":      "real Workflow.Run of two command processes a -> b; a has 1 or 2 outputs, optionally a third one declared only through SetOut (no placeholder in the command)",
 		"output shapes": "plain, nested new directories, ../ relative, absolute (destination directory existing)",
 		"command faults": "per declared write nothing/partial/complete, exit status 0..255 (255 = signal), for both commands",
 		"kill points":   "before every file-system effect of the run (up to 60; the harness asserts that the range covers the run)",
@@ -36,7 +38,7 @@ func init() {
 		Stubs:       []string{"os.*, exec.Command, ioutil.*, filepath.Walk, json, time.Now, log, randSeqLC"}})
 	// C09 uses the same explorations with its own assertions
 	q09 := []H{}
-	for _, h := range q01[:4] {
+	for _, h := range append(append([]H{}, q01[:4]...), q01[4]) {
 		h2 := h
 		h2.MustAssert = []string{"C09.no-silent-failure", "C09.failure-gives-nonzero-exit", "C09.dependant-not-executed", "C09.failed-output-not-finalized"}
 		q09 = append(q09, h2)
@@ -77,7 +79,7 @@ func init() {
 			{Pkg: "scipipe", Fn: "VxH03", Params: p("two", 1, "N", 45, "crashes", 2), MustReach: []string{"converged", "refused", "known"}, MustAssert: []string{"C03.restart-completes", "C03.leftovers-refused", "C03.final-output-kept"}},
 		},
 		Bounds: map[string]string{
-			"history":     "run killed at a symbolic point; clean-up of temp dirs or not (symbolic); re-run; thorough: the re-run may be killed too (crash during recovery), clean-up, third run",
+			"history":     "run killed at a symbolic point; clean-up of temp dirs or not (symbolic); re-run; thorough: the re-run may be killed too (crash during recovery), clean-up, third run; also a workflow with a tagging component and a Concatenator (components that write to final locations themselves); Go-side file writes are truncate-then-write, a kill may fall in between",
 			"workflow":    "a -> b with 1 or 2 outputs of a; every run uses freshly constructed workflow objects",
 			"kill points": "before every file-system effect (0..45, beyond the end of the run is excluded by an assumption)",
 		},
@@ -90,9 +92,11 @@ func init() {
 	ma10 := []string{"C10.every-output-has-a-record", "C10.merge.command", "C10.merge.upstream-tags-present", "C10.fin.upstream-is-the-producers-record", "C10.recorded-command-is-executed-command", "C10.merge.duration"}
 	regCheck(&Check{ID: "C10",
 		Quick: []H{{Pkg: "components", Fn: "VxH10", MustReach: []string{"ran"}, MustAssert: ma10},
+			{Pkg: "components", Fn: "VxH10", Params: p("prepend", 1, "shape", 1), MustReach: []string{"ran"}, MustAssert: ma10},
+			{Pkg: "components", Fn: "VxH10", Params: p("prepend", 0, "shape", 2), MustReach: []string{"ran"}, MustAssert: ma10},
 			{Pkg: "components", Fn: "VxH10kill", Params: p("N", 70), MustReach: []string{"killed"}, MustAssert: []string{"C10.finalized-output-always-has-its-record"}}},
 		Bounds: map[string]string{
-			"workflow":  "two FileSources -> two MapToTags (different tags) -> two-input, two-output command process with a parameter -> final command process, run by the real Workflow.Run",
+			"workflow":  "two FileSources -> two MapToTags (different tags) -> two-input, two-output command process with a parameter (with and without a Prepend prefix) -> final command process whose output is plain / ../ relative / absolute, run by the real Workflow.Run",
 			"clock":     "time.Now returns fresh symbolic non-decreasing instants: the timing clauses (start <= finish, duration = finish - start >= 0) are decided for every clock behaviour",
 			"map order": "symbolic iteration order in writeAuditLogs, createTasks and AddTags",
 		},
@@ -143,6 +147,7 @@ func init() {
 		Bounds: graphBounds, Outside: out, Assumptions: as, Stubs: st})
 	q05 := gq([]string{"C05.run-returns", "C05.no-temp-dir-left", "C04.every-input-set-once"}, []string{"ran"})
 	q05 = append(q05, H{Pkg: "scipipe", Fn: "VxH01wf", Params: p("shape", 0, "two", 1, "N", 60), MustReach: []string{"ran-returned"}, MustAssert: []string{"C05.no-temp-dir-left"}})
+	q05 = append(q05, H{Pkg: "components", Fn: "VxH19joint", Params: p("file", 0), MustReach: []string{"ran"}, MustAssert: []string{"C19.joint.run-returns"}})
 	regCheck(&Check{ID: "C05", Quick: q05, Thorough: append(gt([]string{"C05.run-returns", "C05.no-temp-dir-left", "C04.every-input-set-once"}, []string{"ran"}), q05[1:]...),
 		Bounds: graphBounds, Outside: out, Assumptions: as, Stubs: st})
 }
@@ -178,6 +183,7 @@ func init() {
 		{Pkg: "scipipe", Fn: "VxH17", Params: p("n", 1, "shape", 2, "preempt", 0, "dirExists", 0), MustReach: []string{"ran"}, MustAssert: ma},
 		{Pkg: "scipipe", Fn: "VxH17", Params: p("n", 2, "shape", 3, "preempt", 0), MustReach: []string{"ran"}, MustAssert: ma},
 		{Pkg: "scipipe", Fn: "VxH17", Params: p("n", 2, "shape", 4, "preempt", 0), MustReach: []string{"ran"}, MustAssert: append([]string{"C04.ordinary-output-of-streaming-task-delivered"}, ma...)},
+		{Pkg: "scipipe", Fn: "VxH17", Params: p("n", 1, "shape", 5, "preempt", 0), MustReach: []string{"ran"}, MustAssert: append([]string{"C04.ordinary-output-of-streaming-task-delivered"}, ma...)},
 		{Pkg: "scipipe", Fn: "VxH17rerun", MustReach: []string{"reran"}, MustAssert: []string{"C17.first-run-completes", "C17.rerun-leaves-consumer-output-untouched"}},
 		{Pkg: "scipipe", Fn: "VxH17leftover", Params: p("N", 40), MustReach: []string{"reran"}, MustAssert: []string{"C03.leftover-fifo-refused"}},
 	}
@@ -196,8 +202,9 @@ func init() {
 		Assumptions: append(append([]string{}, envAssumptions...), commonAssumptions[0], commonAssumptions[3]),
 		Stubs:       []string{"mkfifo / rm through the command model; os.Remove; FIFO rendezvous in the command model"}})
 	// C03: add the streaming leftover clause; C04: streaming task with an ordinary output
-	checks["C03"].Quick = append(checks["C03"].Quick, hs[7])
-	checks["C03"].Thorough = append(checks["C03"].Thorough, hs[7])
+	h03tag := H{Pkg: "components", Fn: "VxH03tag", Params: p("N", 70), MustReach: []string{"reran"}, MustAssert: []string{"C03.tag.restart-completes", "C03.tag.component-output-complete"}}
+	checks["C03"].Quick = append(checks["C03"].Quick, hs[7], h03tag)
+	checks["C03"].Thorough = append(checks["C03"].Thorough, hs[7], h03tag)
 	checks["C04"].Quick = append(checks["C04"].Quick, hs[5])
 	checks["C04"].Thorough = append(checks["C04"].Thorough, hs[5])
 }
@@ -208,6 +215,8 @@ func init() {
 		{Pkg: "components", Fn: "VxH19comb", Params: p("ports", 2, "file", 0, "bufsize", 1), MustReach: []string{"ran"}, MustAssert: []string{"C19.comb.cartesian-product-aligned-each-once"}},
 		{Pkg: "components", Fn: "VxH19comb", Params: p("ports", 3, "file", 1, "bufsize", 4), MustReach: []string{"ran"}, MustAssert: []string{"C19.comb.cartesian-product-aligned-each-once"}},
 		{Pkg: "components", Fn: "VxH19comb", Params: p("ports", 3, "file", 0, "bufsize", 4), MustReach: []string{"ran"}, MustAssert: []string{"C19.comb.cartesian-product-aligned-each-once"}},
+		{Pkg: "components", Fn: "VxH19joint", Params: p("file", 1), MustReach: []string{"ran"}, MustAssert: []string{"C19.joint.run-returns", "C19.joint.every-combination-processed"}},
+		{Pkg: "components", Fn: "VxH19joint", Params: p("file", 0), MustReach: []string{"ran"}, MustAssert: []string{"C19.joint.run-returns", "C19.joint.every-combination-processed"}},
 		{Pkg: "components", Fn: "VxH19sel", Params: p("n", 2), MustReach: []string{"ran"}, MustAssert: []string{"C19.sel.exactly-the-passing-tuples-in-order"}},
 		{Pkg: "components", Fn: "VxH19split", Params: p("n", 0), MustReach: []string{"ran"}, MustAssert: []string{"C19.split.parts-concatenate-to-input", "C19.split.no-temp-dir-left"}},
 		{Pkg: "components", Fn: "VxH19split", Params: p("n", 3), MustReach: []string{"ran"}, MustAssert: []string{"C19.split.parts-concatenate-to-input", "C19.split.no-part-longer-than-limit"}},
@@ -221,7 +230,7 @@ func init() {
 		H{Pkg: "components", Fn: "VxH19split", Params: p("n", 5), MustReach: []string{"ran"}, MustAssert: []string{"C19.split.parts-concatenate-to-input"}})
 	regCheck(&Check{ID: "C19", Quick: q, Thorough: th,
 		Bounds: map[string]string{
-			"combinators": "FileCombinator and ParamCombinator, 2 or 3 ports, every combination of stream lengths 0..2 per port, symbolic map iteration order in Run and combine; ports fed by independent sources (buffer 1 for 2 ports; buffer 4 >= stream length for 3 ports)",
+			"combinators": "both out-ports consumed in lock-step by one downstream process with 1..3 x 1..3 rows and buffers of 1 (more rows than the buffers hold); and FileCombinator and ParamCombinator, 2 or 3 ports, every combination of stream lengths 0..2 per port, symbolic map iteration order in Run and combine; ports fed by independent sources (buffer 1 for 2 ports; buffer 4 >= stream length for 3 ports)",
 			"selector":    "IPSelectorSync with 2 ports and 2 (thorough 3) aligned tuples, every pattern of predicate outcomes",
 			"splitter":    "files of 0, 3, 4 (thorough 5) lines with symbolic content of <= 2 bytes, LinesPerSplit symbolic in 1..3 (exact multiples and empty file included)",
 			"concatenator": "0 and 3 input files with symbolic content of <= 2 bytes",
@@ -259,10 +268,14 @@ func init() {
 		Quick: []H{
 			{Pkg: "scipipe", Fn: "VxH07oversize", MustReach: []string{"ran"}, MustAssert: []string{"C07.oversize-rejected-not-hanging", "C07.fitting-cores-run"}},
 			{Pkg: "scipipe", Fn: "VxH06run", Params: p("n", 2, "max", 2, "preempt", 2), MustReach: []string{"ran"}, MustAssert: []string{"C07.no-deadlock"}},
+			{Pkg: "scipipe", Fn: "VxH07proc", Params: p("k", 2, "preempt", 1), MustReach: []string{"ran"}, MustAssert: []string{"C07.k-fitting-tasks-of-one-process-run-simultaneously"}},
+			{Pkg: "scipipe", Fn: "VxH07proc", Params: p("k", 3, "preempt", 0), MustReach: []string{"ran"}, MustAssert: []string{"C07.k-fitting-tasks-of-one-process-run-simultaneously"}},
 		},
 		Thorough: []H{
 			{Pkg: "scipipe", Fn: "VxH07oversize", MustReach: []string{"ran"}, MustAssert: []string{"C07.oversize-rejected-not-hanging", "C07.fitting-cores-run"}},
 			{Pkg: "scipipe", Fn: "VxH06run", Params: p("n", 3, "max", 3, "preempt", 2), MustReach: []string{"ran"}, MustAssert: []string{"C07.no-deadlock"}},
+			{Pkg: "scipipe", Fn: "VxH07proc", Params: p("k", 3, "preempt", 2), MustReach: []string{"ran"}, MustAssert: []string{"C07.k-fitting-tasks-of-one-process-run-simultaneously"}},
+			{Pkg: "scipipe", Fn: "VxH07proc", Params: p("k", 4, "preempt", 1), MustReach: []string{"ran"}, MustAssert: []string{"C07.k-fitting-tasks-of-one-process-run-simultaneously"}},
 		},
 		TCQuick: [2]int{2, 3}, TCThorough: [2]int{2, 3}, TCInductN: 3, TCInductNThorough: 5,
 		Bounds: tcBounds, Outside: []string{"more than 3 concurrent tasks, more than 3 slots in the bounded model checking", "fairness of the Go scheduler"}, Assumptions: as,
@@ -271,7 +284,7 @@ func init() {
 
 func init() {
 	var q, th []H
-	for sc := 0; sc <= 5; sc++ {
+	for sc := 0; sc <= 6; sc++ {
 		q = append(q, H{Pkg: "components", Fn: "VxH12", Params: p("scenario", sc, "preempt", 0), MustReach: []string{"analysed"}, MustAssert: []string{"C12.scenario-runs", "C12.conflicting-pair-ordered"}})
 		pre := 1
 		if sc == 0 || sc == 3 {
@@ -282,7 +295,7 @@ func init() {
 	q = append(q, H{Pkg: "scipipe", Fn: "VxSelfRace", Params: p("kind", 1), MustReach: []string{"done"}, MustAssert: []string{"selftest.race-count"}})
 	q = append(q, H{Pkg: "scipipe", Fn: "VxSelfRace", Params: p("kind", 2), MustReach: []string{"done"}, MustAssert: []string{"selftest.race-count"}})
 	q = append(q, H{Pkg: "scipipe", Fn: "VxSelfRace", Params: p("kind", 3), MustReach: []string{"done"}, MustAssert: []string{"selftest.race-count"}})
-	th = append(th, q[6:]...)
+	th = append(th, q[7:]...)
 	regCheck(&Check{ID: "C12", Quick: q, Thorough: th,
 		Bounds: map[string]string{
 			"scenarios": "six real workflows run by the real Workflow.Run: fan-out to two processes + fan-in; fan-out to MapToTags and a sibling consumer; streaming pair; multi-core tasks of two processes; FileSplitter output fanned out to two consumers; two tagged inputs merged while sibling components read the tags",
